@@ -91,6 +91,8 @@ type Opts struct {
 	// PureFns: module functions that are not inlined and are treated as pure
 	// (C17.R4 verifies their purity).
 	PureFns func(name string) bool
+	// OnInline is told about every module callee that gets expanded.
+	OnInline func(fn *ssa.Function)
 }
 
 type ErrUndecided struct{ Why string }
@@ -1008,6 +1010,9 @@ func (e *engine) doCall(fr *frame, site ssa.Instruction, c *ssa.CallCommon, preF
 		name = fun.Name // call through a package-level function variable (e.g. sdk.MsgTypeURL)
 	}
 	if target != nil && e.inlineable(target, fr.depth+1) {
+		if e.o.OnInline != nil {
+			e.o.OnInline(target)
+		}
 		callT := &Term{Op: "call", Name: name, Args: args, ID: e.newID(), Typ: resT, Site: site}
 		e.emit(Event{Kind: EvEnter, Call: callT, Instr: site, Fn: fr.fn, Depth: fr.depth, ArgVals: e.argVals(args)})
 		nf := &frame{fn: target, env: map[ssa.Value]*Term{}, visits: map[*ssa.BasicBlock]int{}, depth: fr.depth + 1, free: free}
@@ -1175,6 +1180,9 @@ func (e *engine) runCallbacks(fr *frame, site ssa.Instruction, callT *Term, args
 		}
 		kk := k
 		target := a.Fn
+		if e.o.OnInline != nil {
+			e.o.OnInline(target)
+		}
 		e.emit(Event{Kind: EvCbBegin, Call: callT, Fun: a, Instr: site, Fn: fr.fn, Depth: fr.depth})
 		nf := &frame{fn: target, env: map[ssa.Value]*Term{}, visits: map[*ssa.BasicBlock]int{}, depth: fr.depth + 1, free: a.Args}
 		for i, p := range target.Params {
